@@ -35,6 +35,7 @@ META = {
     "(checked by C28/C29); inner sources honour disposal (a source that ignores disposal is silenced by the library's subscribe wrapper "
     "before switch_latest's own id test is reached, so that test is not separately observable)",
 }
+META["text"] += "; thread part: switch_latest/switch_map with the outer sequence and two inners on their own threads, every interleaving up to the preemption bound: no element of a superseded inner that was emitted after the hand-over, every element of the latest inner, completion only after outer and latest inner"
 RULE = (
     "all (operator form, arrival pattern, outer terminal, inner timeline tuple) combinations within the bounds; non-trivial = by the "
     "reference an inner that has been running since an earlier instant is replaced (its subscription is closed because a newer inner arrived); distinct = the full descriptor; cases_with_ties counts executions "
